@@ -343,7 +343,7 @@ Proof.
   pose proof (proj1 (forallb_forall _ _) stub_covers_checked row R1) as C. unfold stub_covers in C.
   apply existsb_exists in C as (s & S1 & S2).
   apply andb_true_iff in S2 as [S2 S4]. apply andb_true_iff in S2 as [S2 S3]. apply String.eqb_eq in S2.
-  unfold grpc_props, grpc_stubs. rewrite <- S2. apply in_map. apply in_or_app.
+  unfold grpc_props, grpc_stubs. rewrite <- S2. apply in_map_iff. exists s. split; [reflexivity|]. apply in_or_app.
   destruct (group_of_mod (cr_mod row)) as [g|] eqn:G; [|discriminate]. simpl in S3.
   assert (g = s_group s) by (destruct (s_group s), g; simpl in S3; congruence). subst g.
   destruct (s_group s) eqn:SG; simpl in S4.
@@ -441,7 +441,7 @@ Proof.
   pose proof (proj1 (forallb_forall _ _) sig_checked r R1) as C. unfold sig_ok in C. rewrite R2 in C.
   destruct (assoc name MIXINS_MAP_FULL) as [[i o]|]; [|discriminate].
   apply andb_true_iff in C as [C1 C2]. apply String.eqb_eq in C1.
-  exists r, i, o. repeat split; auto.
+  exists r, i, o. split; [exact R1|]. split; [exact R2|]. split; [reflexivity|]. split; [exact C1|]. split.
   - intro E. rewrite E, String.eqb_refl in C2. now apply String.eqb_eq.
   - intro E. apply String.eqb_neq in E. rewrite E in C2. now apply String.eqb_eq.
 Qed.
